@@ -176,6 +176,29 @@ CLAIMED["C17"] = dict(
     note=TB + "known findings nostd-powi and nostd-negzero (root cause: uom selects num_traits::float::FloatCore without std)",
     technique="Coq proof + four-configuration transcript correspondence + program-family correspondence")
 
+CLAIMED["C19"] = dict(
+    text="All general theorems of the development are stated for an arbitrary system (any number of base quantities, any base-unit coefficients, "
+         "any unit tables); the downstream system of the harness (4 base quantities, fractional/1e18/offset coefficients, compound unit names; "
+         "declared with system!/quantity! in harness/csys.rs) is translated by the same translator on every run and its table theorems are "
+         "re-proved (composable names coherent, base units, labels unambiguous and trim-invariant, offsets; a unit absent from the registry is "
+         "never parsed); tie: registry/dimension of every custom quantity, new/get of every custom unit x f64/f32/BigRational x three base "
+         "tuples (CQ! aliases) bit-exact/exact against the extracted model, mixed-base operators and comparison rows, formatting and parsing "
+         "against the text model, and units added with unit! to SI length, SI temperature (offset) and the custom system: conversion, "
+         "formatting, absence from registry and parsing",
+    note=TB + "dimension algebra of the custom system is exercised through the static types of the mixed-base operators (mul/div by Tick) rather than a separate program family",
+    technique="Coq proof (general theorems + exhaustive evaluation on translated custom tables) + extracted-model correspondence")
+CLAIMED["C04"] = dict(
+    category="other",
+    text="PARTIAL. Coq theorems (any precision, every value incl. -0.0/inf/NaN): x + (-0.0) = x and x - (+0.0) = x (and not with the zeros "
+         "exchanged), construction with default base units is ONE multiplication by the coefficient, read-back ONE division or multiplication "
+         "by the folded reciprocal, the coherent base unit is the identity function, same-base operators are the single raw operation; tie: "
+         "Quantity::new/get compared bit for bit with a separately compiled bare-number reference with the factor folded to one constant "
+         "(7 200 cases, both float types, all value classes); capability equality quantity <-> storage type for 14 traits x 11 storage types "
+         "decided by rustc on both sides; size/align/niche equality. NOT decided: identity of optimised machine code, call ABI, "
+         "#[repr(transparent)], #[inline(always)] — facts about rustc/LLVM output that no executable Gallina model expresses",
+    note=TB + "a change that keeps every function extensionally equal but costs instructions (e.g. dropping #[inline(always)]) is not detected",
+    technique="Coq proof of the semantic fold identities + differential check against bare-number reference + compile probes")
+
 NOT_YET = "check under construction in this build phase; will be claimed once bin/check implements it"
 
 
